@@ -7,6 +7,7 @@ import Ufw.Tie.RegpFns.MsemSize
 import Ufw.Tie.RegpFns.MemtypeValid
 import Ufw.Tie.RegpFns.RawWithHdcrc
 import Ufw.Tie.RegpFns.RawWithPlcrc
+import Ufw.Tie.RegpFns.MakeMotv
 #print axioms Ufw.Props.C07.verdict_eq_spec
 #print axioms Ufw.Props.C07.accepted_payload_checksum
 #print axioms Ufw.Props.C07.rejected_not_executed
@@ -47,3 +48,8 @@ import Ufw.Tie.RegpFns.RawWithPlcrc
 #print axioms Ufw.Tie.RegpFns.gen_raw_with_hdcrc
 #print axioms Ufw.Tie.RegpFns.pl_mask
 #print axioms Ufw.Tie.RegpFns.gen_raw_with_plcrc
+#print axioms Ufw.Tie.RegpFns.motv_bits
+#print axioms Ufw.Tie.RegpFns.ofNat_shl
+#print axioms Ufw.Tie.RegpFns.ofNat_mod16
+#print axioms Ufw.Tie.RegpFns.model_motv
+#print axioms Ufw.Tie.RegpFns.gen_make_motv
